@@ -510,6 +510,18 @@ def emission(ctx, tm):
     r.idiom("C02.6", "if token['type'] in tagTokenTypes: token['name'] = token['name'].translate(asciiUpper2Lower)" in src,
             "tag-name-lowercase", f.where, "emitCurrentToken no longer lower-cases the tag name of every tag token",
             wrong=[(not lowers, None)])
+    # names are folded with the ASCII-only table, never with str.lower() (which also folds non-ASCII letters: U+212A KELVIN SIGN
+    # becomes k, U+0130 becomes two code points)
+    uni = dict(tm.unicode_lower_sites)
+    for n in ast.walk(f.node):
+        if isinstance(n, ast.Assign) and norm(n.targets[0]).endswith("['name']") and isinstance(n.value, ast.Call) and \
+                isinstance(n.value.func, ast.Attribute) and n.value.func.attr in ("lower", "casefold"):
+            uni[("emitCurrentToken", "name")] = n.lineno
+    r.check("C02.6", not uni, "ascii-only-case-folding", "%s:%d" % (REL, min(uni.values()) if uni else f.node.lineno),
+            "%s fold(s) a tag / attribute name with str.lower(): the standard lower-cases ASCII letters only, so non-ASCII cased "
+            "letters in names are changed (`<a \u212a=1 k=2>` loses its second attribute as a false duplicate)"
+            % ", ".join("%s.%s" % (short(k[0]) if k[0].endswith("State") else k[0], k[1]) for k in sorted(uni)),
+            detail={"sites": len(uni)})
     # duplicate attributes: dict from pairs + update from the reversed list == first wins
     first_wins = False
     wrong_update = False
